@@ -101,7 +101,7 @@ Lemma find_root_R : forall data To target x t ft,
   find_root R numR data To target x = Ok (t, ft) -> ft = fR data To target t.
 Proof.
   intros data To target x t ft H. unfold find_root in H.
-  destruct (f R numR data To target x) as [fx| |] eqn:E; simpl in H; try discriminate.
+  destruct (f R numR data To target x) as [fx| |] eqn:E; cbn [rbind] in H; try discriminate.
   apply (find_root_loop_R _ _ _ _ _ _ _ _ (f_R _ _ _ _ _ E) H).
 Qed.
 
@@ -116,12 +116,12 @@ Theorem returned_time_accurate_f : forall data To target t, 0 < target ->
   Rabs (fR data To target t) <= / 1000 * target.
 Proof.
   intros data To target t Htg H. unfold decay_time_core in H.
-  destruct (f R numR data To target _) as [f0| |]; simpl in H; try discriminate.
+  destruct (f R numR data To target _) as [f0| |]; cbn [rbind] in H; try discriminate.
   unfold dec, lt in H. try rewrite lt_numR in H; cbn [nlt numR] in H. destruct (Rlt_dec f0 target); [discriminate|].
-  destruct (initial_guess R numR To target data) as [x0| |]; simpl in H; try discriminate.
-  destruct (find_root R numR data To target x0) as [[t' ft]| |] eqn:E; simpl in H; try discriminate.
+  destruct (initial_guess R numR To target data) as [x0| |]; cbn [rbind] in H; try discriminate.
+  destruct (find_root R numR data To target x0) as [[t' ft]| |] eqn:E; cbn [rbind] in H; try discriminate.
   apply find_root_R in E.
-  destruct (sdiv R numR _ target) as [pe| |] eqn:Ep; simpl in H; try discriminate.
+  destruct (sdiv R numR _ target) as [pe| |] eqn:Ep; cbn [rbind] in H; try discriminate.
   unfold dec, lt in H. try rewrite lt_numR in H; cbn [nlt numR] in H. destruct (Rlt_dec _ pe) as [|Hpe]; [discriminate|].
   injection H as <-.
   unfold sdiv, dec, is_zero, lt in Ep. try rewrite lt_numR in Ep; cbn [nlt numR] in Ep.
@@ -142,7 +142,7 @@ Fixpoint true_A (rem : list (R * R)) (t : R) : R :=
 (* what calculate_activation hands to decay_time when the smallest rest time is To (C14: each
    product has fallen by 2^(-To/T)), with the decay constant ln 2 / T *)
 Definition data_at (rem : list (R * R)) (To : R) : list (R * R) :=
-  map (fun p => (fst p * Rpower 2 (- To / snd p), ln 2 / snd p)) rem.
+  map (fun p : R * R => (fst p * Rpower 2 (- To / snd p), ln 2 / snd p)) rem.
 
 Lemma sumR_true_A : forall rem To t, sumR (data_at rem To) To t = true_A rem t.
 Proof.
@@ -167,7 +167,7 @@ Theorem f_independent_of_rest_list : forall rem To To' target t,
 Proof. intros. rewrite !f_is_true_activity. reflexivity. Qed.
 
 (* the time the property asks for is unique: the summed activity is strictly decreasing *)
-Definition physical_rem (rem : list (R * R)) : Prop := Forall (fun p => 0 <= fst p /\ 0 < snd p) rem.
+Definition physical_rem (rem : list (R * R)) : Prop := List.Forall (fun p : R * R => 0 <= fst p /\ 0 < snd p) rem.
 
 Lemma Rpower2_decr : forall T t1 t2, 0 < T -> t1 < t2 -> Rpower 2 (- t2 / T) < Rpower 2 (- t1 / T).
 Proof.
@@ -214,14 +214,14 @@ Theorem zero_iff_below_twice : forall data To target f0,
   f R numR data To target 0 = Ok f0 ->
   (decay_time_core R numR data To target = Ok RetZero <-> sumR data To 0 < 2 * target).
 Proof.
-  intros data To target f0 Hf. unfold decay_time_core, q. simpl nQ. rewrite Q2R_zero, Hf. simpl.
+  intros data To target f0 Hf. unfold decay_time_core, q. simpl nQ. rewrite Q2R_zero, Hf. cbn [rbind].
   apply f_R in Hf. unfold fR in Hf. unfold dec, lt. try rewrite lt_numR; cbn [nlt numR].
   destruct (Rlt_dec f0 target) as [L|L].
   - split; [intro; lra|reflexivity].
   - split; [|intro; exfalso; lra]. intro H.
-    destruct (initial_guess R numR To target data) as [x0| |]; simpl in H; try discriminate.
-    destruct (find_root R numR data To target x0) as [[t' ft]| |]; simpl in H; try discriminate.
-    destruct (sdiv R numR _ target) as [pe| |]; simpl in H; try discriminate.
+    destruct (initial_guess R numR To target data) as [x0| |]; cbn [rbind] in H; try discriminate.
+    destruct (find_root R numR data To target x0) as [[t' ft]| |]; cbn [rbind] in H; try discriminate.
+    destruct (sdiv R numR _ target) as [pe| |]; cbn [rbind] in H; try discriminate.
     unfold dec, lt in H. try rewrite lt_numR in H; cbn [nlt numR] in H. destruct (Rlt_dec _ pe); discriminate.
 Qed.
 
